@@ -668,8 +668,8 @@ fn c09_glue_poll_read_pending() { glue_poll_read_case(0, true, None); }
 #[kani::stub(stream::Parser::compress, sv::compress_contract)]
 fn c09_glue_poll_read_buffered() { glue_poll_read_case(2, true, None); }
 
-// @harness name=c08_glue_parse_request props=C08,C07,C12 tier=quick timeout=1800 rmbody=ioerr,nogrow,nodropreq mem=20 unwindset=Token::parse_request::<.*>::.closure.0.$:5;WriteAll<.*>.as.futures_util::Future>::poll$:3
-// @bound Token::parse_request against the request parser's contract (any consumption, 0|2 reply bytes per call, done or not): 0..24 bytes handed over by the previous request; reader: <= 2 bytes in <= 2 reads, <= 1 Pending, then EOF/error; writer: <= 1 short write, <= 1 Pending; polled up to 4 times
+// @harness name=c08_glue_parse_request props=C08,C07,C12 tier=quick timeout=1800 rmbody=ioerr,nogrow,nodropreq mem=30 unwindset=Token::parse_request::<.*>::.closure.0.$:4;WriteAll<.*>.as.futures_util::Future>::poll$:3
+// @bound Token::parse_request against the request parser's contract (any consumption, 0|2 reply bytes per call, done or not): 0..24 bytes handed over by the previous request; reader: 1 byte then EOF/error, <= 1 Pending; writer: <= 1 short write, <= 1 Pending; polled up to 3 times
 // @functions Token::parse_request, AsyncReadExt::read, AsyncWriteExt::write_all, request::Parser::input_buffer
 #[kani::proof]
 #[kani::unwind(10)]
@@ -682,7 +682,7 @@ fn c08_glue_parse_request() {
     let handed: usize = kani::any();
     kani::assume(handed <= sv::B);
     let parser = rv::mk_header_parser(&cfg, buf, handed);
-    let mut r = CountR::new(2, 1);
+    let mut r = CountR::new(1, 1);
     r.fail = if kani::any() { 1 } else { 0 };
     let mut w = CountW::new(1, 1);
     let rp: *const CountR = &r;
@@ -691,7 +691,7 @@ fn c08_glue_parse_request() {
     let mut polls = 0;
     loop {
         polls += 1;
-        assert!(polls <= 4, "parse_request must make progress");
+        assert!(polls <= 3, "parse_request must make progress");
         let pinned = unsafe { Pin::new_unchecked(&mut *fut) };
         match poll_once(pinned) {
             Poll::Ready(res) => {
